@@ -1134,7 +1134,27 @@ func (env *SpecEnv) callExpr(e *SExpr) SVal {
 			vc.needBytes, vc.needToHash, rs = true, true, &Sort{K: SOpaque, Name: "Bytes"}
 		case "timedec":
 			if vc.timeSort == nil {
-				env.fail("@timedec: no time.Time has been decoded in this function")
+				// (a callee's clause evaluated in a caller that decodes no time itself)
+				var tt types.Type
+				for _, sp := range vc.P.Pkgs {
+					if sp == nil || sp.Pkg == nil {
+						continue
+					}
+					for _, imp := range append([]*types.Package{sp.Pkg}, sp.Pkg.Imports()...) {
+						if imp.Path() == "time" {
+							if o := imp.Scope().Lookup("Time"); o != nil {
+								tt = o.Type()
+							}
+						}
+					}
+					if tt != nil {
+						break
+					}
+				}
+				if tt == nil {
+					env.fail("@timedec: package time is not among the loaded packages")
+				}
+				vc.declTimeDec(vc.sortOf(tt))
 			}
 			vc.needBytes, rs = true, vc.timeSort
 		case "select":
